@@ -14,7 +14,7 @@ FLOORS = {"op=flatten": (100, 100), "op=reshape": (50, 50), "subset=contiguous":
           "subset=reordered": (20, 20), "subset=all": (10, 10), "form=set": (10, 10), "form=list": (30, 30), "insert=given": (50, 50),
           "reshape=regroup": (20, 20), "reshape=add": (20, 20), "reshape=drop": (0, 5), "two-groups": (100, 100), "tuple-ops": (50, 50)}
 
-KINDMAPS = [("i", {"x": "i", "y": "i", "z": "i", "w": "i", "r": "i", "s": "i"}), ("s", {"x": "s", "y": "s", "z": "s", "w": "s", "r": "s", "s": "s"}),
+KINDMAPS = [("i", {"x": "i", "y": "i", "z": "i", "w": "i", "r": "i", "s": "i"}), ("u", {"x": "u", "y": "u", "z": "u", "w": "u", "r": "u", "s": "u"}), ("s", {"x": "s", "y": "s", "z": "s", "w": "s", "r": "s", "s": "s"}),
             ("mixed", {"x": "i", "y": "s", "z": "f", "w": "i", "r": "s", "s": "f"})]
 
 
